@@ -49,6 +49,9 @@ type Parser struct {
 	// escape sequence
 	escTimeout *time.Timer
 	mu         sync.Mutex
+	// done is set when the parser has stopped and is about to close the
+	// channel
+	done bool
 
 	oscData []rune
 	apcData []rune
@@ -130,6 +133,11 @@ outer:
 	if p.escTimeout != nil {
 		p.escTimeout.Stop()
 	}
+	// A timeout which fired already finishes before we close the channel,
+	// one which fires from now on sends nothing
+	p.mu.Lock()
+	p.done = true
+	p.mu.Unlock()
 	p.emit(EOF{})
 	close(p.sequences)
 	p.closed <- true
@@ -472,11 +480,14 @@ func anywhere(r rune, p *Parser) stateFn {
 		}
 		p.clear()
 		p.escTimeout = time.AfterFunc(10*time.Millisecond, func() {
-			p.emit(C0(0x1B))
 			p.mu.Lock()
+			defer p.mu.Unlock()
+			if p.done {
+				return
+			}
+			p.emit(C0(0x1B))
 			p.state = ground
 			p.ignoreST = false
-			p.mu.Unlock()
 		})
 		return escape
 	default:
